@@ -356,6 +356,15 @@ func (h *hist) randomTx(av []utxo, used map[string]bool, height uint32) *regnet.
 		for i := 0; i < nin; i++ {
 			for try := 0; try < 8 && len(av) > 0; try++ {
 				u := av[r.Intn(len(av))]
+				if i > 0 && len(ts.Ins) > 0 && r.Chance(60) {
+					// a sibling output of the first input's transaction, when one is still unspent
+					for _, w := range av {
+						if w.id == ts.Ins[0].TxID && !used[fmt.Sprintf("%s:%d", w.id, w.idx)] {
+							u = w
+							break
+						}
+					}
+				}
 				k := fmt.Sprintf("%s:%d", u.id, u.idx)
 				if used[k] {
 					continue
@@ -513,6 +522,43 @@ func oneHistory(g *hx.Gen, steps int) {
 			if r.Chance(50) {
 				if g.Emit("save %s", describe(b)) == "ok" {
 					h.chain = append(h.chain, b)
+				}
+			}
+		case c < 86: // one address gets a non-zero and a zero-value output in one block; the next block spends both
+			av := h.avail()
+			var src *utxo
+			for k := range av {
+				if av[k].value > 1000 {
+					src = &av[k]
+					break
+				}
+			}
+			if src == nil {
+				continue
+			}
+			a := 1 + r.Intn(4)
+			t1 := &regnet.TxSpec{Kind: "ot", Nonce: h.nextNonce(), Ins: []regnet.InSpec{{TxID: src.id, Index: uint16(src.idx)}},
+				Outs: []regnet.OutSpec{{Addr: a, Value: src.value / 2, Pay: "-"}, {Addr: a, Value: 0, Pay: "-"}, {Addr: 0, Value: src.value / 3, Pay: "-"}}}
+			h.finishTx(t1, th+1)
+			b1 := h.newBlock(tip, th+1, []*regnet.TxSpec{t1})
+			if g.Emit("save %s", describe(b1)) != "ok" {
+				continue
+			}
+			h.chain = append(h.chain, b1)
+			h.observe()
+			ins := []regnet.InSpec{{TxID: t1.ID, Index: 0}, {TxID: t1.ID, Index: 1}}
+			if r.Bool() {
+				ins[0], ins[1] = ins[1], ins[0]
+			}
+			t2 := &regnet.TxSpec{Kind: "ot", Nonce: h.nextNonce(), Ins: ins,
+				Outs: []regnet.OutSpec{{Addr: 1 + r.Intn(4), Value: src.value / 4, Pay: "-"}}}
+			h.finishTx(t2, th+2)
+			b2 := h.newBlock(b1.ID, th+2, []*regnet.TxSpec{t2})
+			if g.Emit("save %s", describe(b2)) == "ok" {
+				h.chain = append(h.chain, b2)
+				h.observe()
+				if r.Chance(70) && g.Emit("rollback %s", describe(b2)) == "ok" {
+					h.chain = h.chain[:len(h.chain)-1]
 				}
 			}
 		default: // invalid requests
